@@ -13,6 +13,7 @@ from __future__ import annotations
 
 import ast
 import os
+import re
 
 from vlib import py2v
 from vlib.py2v import Untranslatable, dotted
@@ -387,13 +388,24 @@ def generate(repo: str):
         resel[m] = reselect_kind(py2v.find_method(df_tree, "BaseDataFrame", DF_METHODS[m]), DF_METHODS[m])
     # dropDuplicates(subset) is modelled as the composite withColumn / where / drop on a copy
     dd = ast.unparse(py2v.find_method(df_tree, "BaseDataFrame", "dropDuplicates"))
-    for needle in ("self.copy()", ".withColumn('row_num'", ".where(", ".drop('row_num')"):
-        if needle not in dd:
-            raise Untranslatable(f"dropDuplicates: `{needle}` not found (composite shape changed)")
+    # the helper column is called row_num / num_nulls -- literally, or through _unused_column_name('<that name>', <current columns>)
+    # (underscores appended only when the frame already has such a column; such names are not generated)
+    def helper_shapes(src, base, uses):
+        lit = all(u.format(n=repr(base)) in src for u in uses)
+        m = re.search(r"(\w+) = self\._unused_column_name\(" + re.escape(repr(base)) + r", ", src)
+        var = m is not None and all(u.format(n=m.group(1)) in src for u in uses)
+        if var:
+            h = ast.unparse(py2v.find_method(df_tree, "BaseDataFrame", "_unused_column_name"))
+            for needle in ("taken = {column.alias_or_name for column in columns}", "while name in taken", "return name"):
+                if needle not in h:
+                    raise Untranslatable(f"_unused_column_name: `{needle}` not found")
+        return lit or var
+
+    if not ("self.copy()" in dd and ".where(" in dd and helper_shapes(dd, "row_num", [".withColumn({n}", ".drop({n})"])):
+        raise Untranslatable("dropDuplicates: composite shape (copy / withColumn(row_num) / where / drop(row_num)) changed")
     dn = ast.unparse(py2v.find_method(df_tree, "BaseDataFrame", "dropna"))
-    for needle in (".alias('num_nulls')", "append=True", ".where(", "*all_columns"):
-        if needle not in dn:
-            raise Untranslatable(f"dropna: `{needle}` not found (composite shape changed)")
+    if not ("append=True" in dn and ".where(" in dn and "*all_columns" in dn and helper_shapes(dn, "num_nulls", [".alias({n})"])):
+        raise Untranslatable("dropna: composite shape (alias(num_nulls) appended / where / select(*all_columns)) changed")
     # agg delegates to groupBy().agg
     ag = ast.unparse(py2v.find_method(df_tree, "BaseDataFrame", "agg"))
     if "self.groupBy().agg(" not in ag:
@@ -418,10 +430,19 @@ def generate(repo: str):
         join_key_bare = False
     else:
         raise Untranslatable("_handle_join_column_names_only: the key lookup in the CTE's named_selects changed")
+    # how orderBy builds a sort term: read by C01's order_key_facts (comprehension or loop, temporaries read through)
+    okf = c01_facts.order_key_facts(df_tree, df_src)
     ob = ast.unparse(py2v.find_method(df_tree, "BaseDataFrame", "orderBy"))
-    if "parse_one(" in ob and "into=exp.Ordered" in ob and "identify=" not in ob:
+    if okf["shape"] == "text parsed with the input dialect":
+        if "identify=" in ob:
+            raise Untranslatable("orderBy: keys are rendered with identify= before being re-parsed (not modelled)")
         orderby_identify = False      # keys are rendered to text and re-parsed: bare keyword names fail
-    elif "parse_one(" not in ob and "exp.Ordered(this=col.column_expression.copy(), desc=None if asc else True, nulls_first=asc)" in ob:
+    elif okf["shape"] == "exp.Ordered built directly":
+        terms = [n for n in ast.walk(py2v.find_method(df_tree, "BaseDataFrame", "orderBy"))
+                 if isinstance(n, ast.Call) and dotted(n.func) == "exp.Ordered"]
+        this = {k.arg: k.value for k in terms[0].keywords}["this"]
+        if not re.fullmatch(r"\w+\.(column_expression|expression)(\.copy\(\))?", ast.unparse(this)):
+            raise Untranslatable(f"orderBy: exp.Ordered(this={ast.unparse(this)}) is not the key's expression")
         orderby_identify = True       # keys are built directly: every name is accepted
     else:
         raise Untranslatable("orderBy: ordering keys are built in a shape I do not know")
